@@ -67,6 +67,11 @@ fn binding_shader(pairs: &[(u32, u32)], mode: u8) -> String {
         s.push_str("    return vec4<f32>(0.0);\n}\n");
         return s;
     }
+    if mode == 4 {
+        // a declarations-only module (entry points live in another file)
+        s.push_str("fn helper() -> f32 { return 1.0; }\n");
+        return s;
+    }
     s.push_str("@compute @workgroup_size(1)\nfn main() {\n");
     if mode != 0 {
         for i in 0..pairs.len() {
@@ -99,6 +104,14 @@ fn main() {
                     files.extend(v);
                 }
             }
+            // development aid: shaders being tried out before they are added to /verif/corpus
+            if let Ok(dir) = std::env::var("VERIF_EXTRA_CORPUS") {
+                if let Ok(rd) = std::fs::read_dir(&dir) {
+                    let mut v: Vec<_> = rd.filter_map(|e| e.ok()).map(|e| e.path()).filter(|p| p.extension().map(|x| x == "wgsl").unwrap_or(false)).collect();
+                    v.sort();
+                    files.extend(v);
+                }
+            }
             for f in files {
                 let src = std::fs::read_to_string(&f).unwrap();
                 emit(&format!("fixture:{}", f.display()), &src);
@@ -121,6 +134,9 @@ fn main() {
                     emit(&format!("c11:{}", id.join("-")), &binding_shader(&seq, 0));
                     if len >= 2 && len <= 3 {
                         emit(&format!("c11:{}:stage-disjoint", id.join("-")), &binding_shader(&seq, 2));
+                    }
+                    if len <= 2 {
+                        emit(&format!("c11:{}:no-entry-point", id.join("-")), &binding_shader(&seq, 4));
                     }
                     // odometer
                     let mut k = len;
@@ -196,7 +212,7 @@ fn main() {
             let tys = ["vec4<f32>", "f32", "mat4x4<f32>", "PC", "array<vec4<f32>, 3>", "mat3x3<f32>", "vec3<u32>"];
             let mut k = 0usize;
             // a module with a push constant and NO entry point at all (a shared declarations file)
-            emit("pc:0:0:0", "struct PC { a: vec3<f32>, b: f32 }\nvar<push_constant> pc: PC;\nfn helper() -> f32 { return pc.b; }\n");
+            emit("pc:0:0:0", "struct PC { a: vec3<f32>, b: f32 }\nvar<push_constant> pc: PC;\n@group(0) @binding(0) var<uniform> ub: vec4<f32>;\nfn helper() -> f32 { return pc.b + ub.x; }\n");
             for len in 1..=maxlen {
                 let total = 3usize.pow(len as u32);
                 for code in 0..total {
@@ -212,18 +228,51 @@ fn main() {
                     // switch / if / nested block of a helper, 8 = call statement under `if DEBUG { .. }` with `const DEBUG = false` (the whole
                     // condition is a module constant), 9 = in the else branch of a constant-true flag, 10 = after the same void helper was
                     // called twice in the block, 11 = only the ADDRESS of the variable is taken, never dereferenced (`let p = &pc;`)
-                    for usage in 0..13usize {
+                    for usage in 0..18usize {
                         let ty = tys[k % tys.len()];
                         k += 1;
                         let mut s = String::new();
                         s.push_str("struct PC { a: vec3<f32>, b: f32, c: vec2<f32> }\n");
                         s.push_str(&format!("var<push_constant> pc: {ty};\n"));
-                        s.push_str("fn leaf() -> f32 { _ = pc; let p = pc; return 1.0; }\nfn mid() -> f32 { var x = 0.0; loop { if x > 1.0 { break; } continuing { x += leaf(); } } return x; }\n");
+                        // a resource variable used exactly where the push constant is: the same usage patterns decide its visibility
+                        s.push_str("@group(0) @binding(0) var<uniform> ub: vec4<f32>;\n");
+                        if usage == 16 {
+                            // more than 64 functions before the one that touches the variables
+                            for f in 0..70 {
+                                s.push_str(&format!("fn filler{f}() {{ }}\n"));
+                            }
+                        }
+                        s.push_str("fn leaf() -> f32 { _ = pc; _ = ub; let p = pc; return 1.0; }\nfn mid() -> f32 { var x = 0.0; loop { if x > 1.0 { break; } continuing { x += leaf(); } } return x; }\n");
                         if usage == 12 {
-                            s.push_str("fn dead_inner() -> f32 { let p = pc; return 1.0; }\nfn dead() -> f32 { return dead_inner(); }\n");
+                            s.push_str("fn dead_inner() -> f32 { let p = pc; let b = ub; return 1.0; }\nfn dead() -> f32 { return dead_inner(); }\n");
                         }
                         if usage >= 5 && usage != 12 {
-                            s.push_str("fn leafv() { _ = pc; }\n");
+                            s.push_str("fn leafv() { _ = pc; _ = ub; }\n");
+                            // 13-15: the call stands AFTER a statement that ends the block (static use ignores reachability; naga's front end
+                            // keeps such statements, only its validator objects), 16: the callee is function number 70+, 17: the call sits in
+                            // branch 66 of a flat `if .. else if ..` chain (naga nests each `else if` one level deeper)
+                            // (only in the modules that use them: naga's validator rejects a module with statements after a terminator)
+                            if usage == 13 {
+                                s.push_str("fn midret() { return; leafv(); }\n");
+                            }
+                            if usage == 14 {
+                                s.push_str("fn midbrk() { loop { break; leafv(); } }\n");
+                            }
+                            if usage == 15 {
+                                s.push_str("fn midcnt() { var i = 0u; loop { if i > 1u { break; } i += 1u; continue; leafv(); } }\n");
+                            }
+                            if usage == 17 {
+                                let mut chain = String::from("fn midelif(k: u32) { if k == 0u { }");
+                                for b in 1..70 {
+                                    if b == 66 {
+                                        chain.push_str(&format!(" else if k == {b}u {{ leafv(); }}"));
+                                    } else {
+                                        chain.push_str(&format!(" else if k == {b}u {{ }}"));
+                                    }
+                                }
+                                chain.push_str(" }\n");
+                                s.push_str(&chain);
+                            }
                             s.push_str("fn midv() { var x = 0.0; loop { if x > 1.0 { break; } continuing { x += 1.0; leafv(); } } }\n");
                             s.push_str("fn midf() { for (var i = 0u; i < 2u; leafv()) { i += 1u; } }\n");
                             s.push_str("fn mids(k: u32) { switch k { case 1u: { if k > 0u { { leafv(); } } } default: { } } }\n");
@@ -252,9 +301,14 @@ fn main() {
                                     8 => "midc();",
                                     9 => "mide();",
                                     10 => "midr();",
-                                    11 => "let p = &pc;",
+                                    11 => "let p = &pc; let pb = &ub;",
+                                    13 => "midret();",
+                                    14 => "midbrk();",
+                                    15 => "midcnt();",
+                                    16 => "leafv();",
+                                    17 => "midelif(3u);",
                                     12 => "",   // only a helper NOBODY calls mentions the variable (see `dead` below)
-                                    _ => "let q = pc;",
+                                    _ => "let q = pc; let qb = ub;",
                                 }
                             };
                             match st {
@@ -477,7 +531,11 @@ fn main() {
             // shaders that make a call END BADLY in different ways: the sequence harness runs them between other cases and checks that
             // nothing of the failure stays behind in the process (a "formatter is broken" flag, a poisoned lock, a cache that is only
             // cleared on success ..)
-            let list: [(&str, &str); 13] = [
+            let list: [(&str, &str); 31] = [
+                // (the pair stands at the beginning and again at the end: the pipelines deal the cases out in runs of 32 lines, one of
+                // the two pairs always stays inside one process)
+                ("panic-after-structs-first", "struct P { a: vec4<f32>, m: mat3x3<f32>, k: vec2<u32> }\n@group(0) @binding(0) var<uniform> p: P;\n@group(0) @binding(1) var<storage, read_write> counter: atomic<u32>;\n@compute @workgroup_size(1) fn main() { atomicAdd(&counter, u32(p.a.x)); }\n"),
+                ("plain-after-panic-first", "struct Q { x: f32, y: vec2<u32>, z: vec3<i32>, w: mat2x2<f32> }\n@group(0) @binding(0) var<uniform> q: Q;\n@group(0) @binding(1) var<storage, read_write> o: array<f32>;\n@compute @workgroup_size(1) fn main() { o[0] = q.x; }\n"),
                 ("vertex-bool-location", "struct V { @location(0) p: vec4<f32>, @location(1) flag: u32, @location(2) b: vec2<bool> }\n@vertex fn vs(v: V) -> @builtin(position) vec4<f32> { return v.p; }\n"),
                 ("preprocessor-line", "#import common::types\n@compute @workgroup_size(1) fn main() { }\n"),
                 ("preprocessor-line-inside", "@compute @workgroup_size(1) fn main() {\n  #define N 4\n}\n"),
@@ -491,6 +549,26 @@ fn main() {
                 ("duplicate-binding", "@group(0) @binding(0) var<uniform> a: vec4<f32>;\n@group(0) @binding(0) var<uniform> b: vec4<f32>;\n@compute @workgroup_size(1) fn main() { }\n"),
                 ("group-gap", "@group(2) @binding(0) var<uniform> a: vec4<f32>;\n@compute @workgroup_size(1) fn main() { _ = a; }\n"),
                 ("plain", "struct P { a: vec4<f32> }\n@group(0) @binding(0) var<uniform> p: P;\n@compute @workgroup_size(1) fn main() { _ = p.a; }\n"),
+                // defects only the validator's pass over constants / overrides sees
+                ("override-duplicate-id", "@id(0) override a: f32 = 1.0;\n@id(0) override b: f32 = 2.0;\n@compute @workgroup_size(1) fn main() { _ = a + b; }\n"),
+                ("override-vector", "override offset: vec2<f32>;\n@compute @workgroup_size(1) fn main() { }\n"),
+                ("leading-bom", "\u{feff}@compute @workgroup_size(1) fn main() { }\n"),
+                // which failure wins: a numbering error together with a construct the generator panics on
+                ("duplicate-and-runtime-array", "struct R { n: u32, items: array<vec4<f32>> }\n@group(0) @binding(0) var<storage, read> r: R;\n@group(0) @binding(0) var<uniform> b: vec4<f32>;\n@compute @workgroup_size(1) fn main() { _ = r.n; }\n"),
+                ("gap-and-runtime-array", "struct R { n: u32, items: array<vec4<f32>> }\n@group(1) @binding(0) var<storage, read> r: R;\n@compute @workgroup_size(1) fn main() { _ = r.n; }\n"),
+                ("duplicate-and-top-level-atomic", "@group(0) @binding(1) var<storage, read_write> counter: atomic<u32>;\n@group(0) @binding(1) var<uniform> b: vec4<f32>;\n@compute @workgroup_size(1) fn main() { atomicAdd(&counter, 1u); }\n"),
+                ("gap-and-keyword-member", "struct S { box: vec4<f32> }\n@group(3) @binding(0) var<uniform> u: S;\n@compute @workgroup_size(1) fn main() { _ = u.box; }\n"),
+                ("gap-and-vertex-bool-location", "struct V { @location(0) p: vec4<f32>, @location(1) b: vec2<bool> }\n@group(1) @binding(0) var<uniform> u: vec4<f32>;\n@vertex fn vs(v: V) -> @builtin(position) vec4<f32> { return v.p + u; }\n"),
+                // modules without an entry point (shared declaration files), an empty file, comments only
+                ("entryless-gap", "@group(1) @binding(0) var<uniform> a: vec4<f32>;\nfn helper() -> f32 { return a.x; }\n"),
+                ("entryless-duplicate", "@group(0) @binding(2) var<uniform> a: vec4<f32>;\n@group(0) @binding(2) var<uniform> b: vec4<f32>;\n"),
+                ("entryless-declarations", "struct Light { pos: vec3<f32>, intensity: f32 }\nconst MAX_LIGHTS: u32 = 16u;\nconst SCALE = 1.5;\noverride quality: u32 = 2u;\n@group(0) @binding(0) var<uniform> light: Light;\n@group(0) @binding(1) var<storage, read> lights: array<Light>;\nvar<push_constant> pcs: vec4<f32>;\nfn helper() -> f32 { return light.intensity * SCALE; }\n"),
+                ("comment-only", "// nothing but a comment\n/* and a block comment */\n"),
+                ("empty", ""),
+                ("constants-only", "const A: i32 = -7;\nconst B = 2.5;\nconst C: u32 = 3u;\n"),
+                // a call that panics AFTER its structs were generated, followed by a module whose type handles mean other types
+                ("panic-after-structs", "struct P { a: vec4<f32>, m: mat3x3<f32>, k: vec2<u32> }\n@group(0) @binding(0) var<uniform> p: P;\n@group(0) @binding(1) var<storage, read_write> counter: atomic<u32>;\n@compute @workgroup_size(1) fn main() { atomicAdd(&counter, u32(p.a.x)); }\n"),
+                ("plain-after-panic", "struct Q { x: f32, y: vec2<u32>, z: vec3<i32>, w: mat2x2<f32> }\n@group(0) @binding(0) var<uniform> q: Q;\n@group(0) @binding(1) var<storage, read_write> o: array<f32>;\n@compute @workgroup_size(1) fn main() { o[0] = q.x; }\n"),
             ];
             for (id, src) in list {
                 emit(&format!("provoke:{id}"), src);
@@ -615,6 +693,31 @@ fn main() {
                 "nesteddeep" => verif_harness::wgslgen::nested_deep(n),
                 "diamondptr" => verif_harness::wgslgen::diamond_ptr(n),
                 "nestedifs" => verif_harness::wgslgen::nested_ifs(n),
+                "elseif" => {
+                    // a FLAT `if .. else if .. else` chain of n branches (material dispatch); every 7th branch calls a helper
+                    let mut s = String::from("@group(0) @binding(0) var<uniform> u: vec4<f32>;\n@group(0) @binding(1) var<storage, read_write> out: array<f32>;\nfn touch(k: u32) { out[k] = u.x; }\nfn shade(k: u32) -> f32 { return u.y * f32(k); }\n");
+                    s.push_str("@fragment fn fs(@location(0) @interpolate(flat) m: u32) -> @location(0) vec4<f32> {\n    var c = 0.0;\n    if m == 0u { c = 1.0; }");
+                    for b in 1..n {
+                        if b % 7 == 3 {
+                            s.push_str(&format!(" else if m == {b}u {{ touch({b}u); }}"));
+                        } else if b % 7 == 5 {
+                            s.push_str(&format!(" else if m == {b}u {{ c = shade({b}u); }}"));
+                        } else {
+                            s.push_str(&format!(" else if m == {b}u {{ c = {b}.0; }}"));
+                        }
+                    }
+                    s.push_str(" else { c = -1.0; }\n    return vec4<f32>(c);\n}\n");
+                    s
+                }
+                "overrideladder" => {
+                    // override defaults derived from each other, each level mentioning the previous one twice; the last sizes a workgroup
+                    let mut s = String::from("override size0: u32 = 4u;\n");
+                    for l in 1..=n {
+                        s.push_str(&format!("override size{l}: u32 = (size{} + size{}) / 2u;\n", l - 1, l - 1));
+                    }
+                    s.push_str(&format!("@group(0) @binding(0) var<storage, read_write> data: array<u32>;\n@compute @workgroup_size(size{n}, 1, 1) fn main(@builtin(global_invocation_id) id: vec3<u32>) {{ data[id.x] = size{n}; }}\n"));
+                    s
+                }
                 other => panic!("unknown family {other}"),
             };
             emit(&format!("family:{}:{n}", args[2]), &src);
